@@ -396,6 +396,11 @@ type distrRunner struct {
 	mintDenom                 string // exomint MintDenom in force
 	paramUpdates, switchLower int
 	haltSigAs                 string // directed probes: the sig a halt of this history is reported under
+	// F-17c regression (dom_distribution_params.go): updates with a community tax outside [0,1] that were ACCEPTED;
+	// with deferTaxAccepted the violation is reported by the scenario after the block that follows (one replay
+	// holding update, fees and the halting block) instead of at once
+	deferTaxAccepted bool
+	taxAccepted      []string
 }
 
 func (r *distrRunner) op(op, obs string) {
@@ -450,7 +455,11 @@ func (r *distrRunner) block(d time.Duration) bool {
 		if r.haltSigAs != "" {
 			sig = r.haltSigAs
 		}
-		env.Violate("C17.halt", sig, "block processing panicked: "+res.Halt, r.hist)
+		what := "block processing panicked: " + res.Halt
+		if len(r.taxAccepted) > 0 {
+			what += "; community tax in force outside [0,1] after the ACCEPTED " + strings.Join(r.taxAccepted, ", ")
+		}
+		env.Violate("C17.halt", sig, what, r.hist)
 		env.Outcome("block:halt")
 		return false
 	}
